@@ -277,6 +277,7 @@ impl Prop for Faithful {
         cfg.backends = false;
         cfg.static_vfuncs = true;
         cfg.alias_types = 4;
+        cfg.allow_f20 = true;
         let (prog, _, _) = gen_prog(t, cfg);
         Case { prog, w }
     }
